@@ -37,17 +37,21 @@ def secs(ms):
     return s.rstrip("0")
 
 
+def objname(o):
+    return "level" if o == 50 else "$o%d" % o
+
+
 def stmt(ins):
     k = ins[0]
     if k == "mark": return 'println "m%d"' % ins[1]
     if k == "wait": return "wait %s" % secs(ins[1])
     if k == "waittill":
         if len(ins[2]) == 1:
-            return '$o%d waittill "n%d"' % (ins[1], ins[2][0])
-        return "$o%d waittill_any %s" % (ins[1], " ".join('"n%d"' % n for n in ins[2]))
-    if k == "waittill_timeout": return '$o%d waittill_timeout %s "n%d"' % (ins[1], secs(ins[3]), ins[2])
-    if k == "notify": return '$o%d notify "n%d"' % (ins[1], ins[2])
-    if k == "endon": return '$o%d endon "n%d"' % (ins[1], ins[2])
+            return '%s waittill "n%d"' % (objname(ins[1]), ins[2][0])
+        return "%s waittill_any %s" % (objname(ins[1]), " ".join('"n%d"' % n for n in ins[2]))
+    if k == "waittill_timeout": return '%s waittill_timeout %s "n%d"' % (objname(ins[1]), secs(ins[3]), ins[2])
+    if k == "notify": return '%s notify "n%d"' % (objname(ins[1]), ins[2])
+    if k == "endon": return '%s endon "n%d"' % (objname(ins[1]), ins[2])
     if k == "delete": return "$o%d delete" % ins[1]
     if k == "spawn": return 'local.sp%d = spawn SimpleEntity targetname "o%d"' % (ins[1], ins[1])
     if k == "thread": return "thread t%d local" % ins[1]
@@ -295,6 +299,12 @@ def gen_c09_prog(rng):
                 body.append(("waitthread", rng.randint(i + 1, nl - 1)))
             elif r < 0.9:
                 body.append(("pause",))
+            elif r < 0.94:
+                body.append(("waittill", 50, [rng.randint(1, 2)]))
+            elif r < 0.98:
+                body.append(("notify", 50, rng.randint(1, 2)))
+            else:
+                body.append(("endon", 50, rng.randint(1, 2)))
             body.append(mk.next())
         prog.append(body)
     return prog
@@ -316,16 +326,16 @@ VAR_SETUP = [
     'local.i = 123456789', 'local.s = "abc def"', 'local.a[1] = 5', 'local.a[2] = "x"', 'local.a["k"] = 7',
     'local.b = local.a', 'local.c = 1::2::"three"', 'local.f = 1.5', 'local.n = NIL', 'local.v = (1 2 3)',
     'local.me = local', 'group.g = 77', 'local.e = ""', 'local.big = 4294967297', 'local.neg = -5',
-    'local.aa[1][2] = 9', 'local.ch = "abc"[1]',
+    'local.aa[1][2] = 9', 'local.ch = "abc"[1]', 'local.a[-1] = 3', 'local.a[0] = 4', 'local.a[-70000] = 8',
 ]
 VAR_PRINTS = [
     'println "i" local.i', 'println "s" local.s', 'println "a" local.a[1] local.a[2] local.a["k"]',
     'println "b" local.b[1] local.b[2]', 'println "c" local.c[1] local.c[3]', 'println "f" local.f',
     'println "n" local.n', 'println "v" local.v', 'println "me" (local.me == local)', 'println "g" group.g',
     'println "e" local.e', 'println "big" local.big', 'println "neg" local.neg', 'println "aa" local.aa[1][2]',
-    'println "ch" local.ch', 'println "sz" local.a.size',
+    'println "ch" local.ch', 'println "sz" local.a.size', 'println "an" local.a[-1] local.a[0] local.a[-70000]',
 ]
-VAR_MUTS = ['local.a[1] = 6', 'local.b[2] = "y"', 'local.i = local.i + 1', 'local.s = local.s + "!"', 'group.g = group.g + 1',
+VAR_MUTS = ['local.a[-1] = local.a[-1] + 1', 'local.a[1] = 6', 'local.b[2] = "y"', 'local.i = local.i + 1', 'local.s = local.s + "!"', 'group.g = group.g + 1',
             'local.a[3] = local.i', 'local.aa[1][2] = local.aa[1][2] * 2']
 
 
